@@ -170,6 +170,11 @@ def extract(config="default", repo=None, target=None, quiet=False):
             sys.stderr.write(p.stdout[-6000:])
             sys.stderr.write("swimverify: fact extraction failed (cargo check exit %d): the tree does not build\n" % p.returncode)
             raise SystemExit(2)
+        if source_digest(repo) != digest:
+            # the tree was modified while it was being compiled: the facts belong to no definite tree
+            shutil.rmtree(out, ignore_errors=True)
+            sys.stderr.write("swimverify: %s changed while its facts were being extracted; nothing was cached, run again\n" % repo)
+            raise SystemExit(2)
         missing = [c for c in cfg["expect"] if not os.path.isfile(os.path.join(out, c + ".index.json"))]
         if missing:
             sys.stderr.write(p.stdout[-3000:])
